@@ -589,8 +589,10 @@ func (t *Teamserver) handleRequest(id string) {
 		return
 	}
 	// Body.Info comes from an unauthenticated peer: never assert its types unchecked
+	// an empty display name is the name of every connection that has not logged in yet
+	// (replies directed to "the sender" are resolved by name): fall back to the operator name
 	InfoUser, ok := pk.Body.Info["User"].(string)
-	if !ok {
+	if !ok || InfoUser == "" {
 		InfoUser = pk.Head.User
 	}
 
